@@ -67,7 +67,7 @@ func init() {
 	vc.Register(&vc.Check{
 		ID:    "C07",
 		Level: "exploration",
-		Rule: "schedules: all executions within the deviation bound (quick 2, thorough 3; a deviation = preempting a runnable thread, firing the query-timeout timer early, departing from the scripted arrival order, or a non-default thread pick) of 1-2 application threads issuing Serf.Query (acks requested) while a network thread delivers a scripted list of replies (matching ack/response, duplicates, wrong id, wrong Lamport time, reply for the other query, replies after the deadline) and virtual time runs the timeout; every reply is a Delegate.NotifyMsg on the real node; non-trivial = at least one non-default choice",
+		Rule: "schedules: all executions within the deviation bound (quick 3, thorough 4; a deviation = preempting a runnable thread, firing the query-timeout timer early, departing from the scripted arrival order, or a non-default thread pick) of 1-2 application threads issuing Serf.Query (acks requested) while a network thread delivers a scripted list of replies (matching ack/response, duplicates, wrong id, wrong Lamport time, reply for the other query, replies after the deadline) and virtual time runs the timeout; every reply is a Delegate.NotifyMsg on the real node; non-trivial = at least one non-default choice",
 		Assumptions: []string{
 			"replies are delivered serially (memberlist's single packet handler)",
 			"the node's memberlist knows 2 peers (learnt through a real Join against an in-memory push/pull responder), which sizes the result channels",
@@ -78,9 +78,9 @@ func init() {
 }
 
 func c07run(ctx *vc.Ctx) {
-	bound := 2
+	bound := 3
 	if ctx.Thorough() {
-		bound = 3
+		bound = 4
 	}
 	one := []c07reply{
 		{q: 0, from: "b", ack: true}, {q: 0, from: "b", payload: "x"}, {q: 0, from: "b", ack: true}, {q: 0, from: "b", payload: "y"},
